@@ -90,12 +90,22 @@ def class_source(c, classes):
     return '\n'.join(lines) + '\n'
 
 
+def next_run_number():
+    """ordinal of a run among all runs ever started in the workspace (survives the forked 'process restarts'):
+    kept in a file beside - not inside - the data directory"""
+    p = Path('tcv_run_counter')
+    n = (int(p.read_text()) if p.exists() else 0) + 1
+    p.write_text(str(n))
+    return n
+
+
 def provenance(task, cid):
     """What a generated run() returns: a JSON term naming the class, the parameters that enter the
     persistence key (by their value repr) and the values of the inputs in declaration order."""
     from taskchain.task import Task
     from . import pipeline as me
     me.RUNLOG.append((str(task.get_config().namespace), task.slugname, task.name_for_persistence))
+    run_no = next_run_number()
     if task.slugname in me.FAIL:
         raise RuntimeError(f'run of {task.slugname} fails on purpose')
     ps = {}
@@ -112,7 +122,7 @@ def provenance(task, cid):
             val = {'__default__': json_safe(t)}
         ins.append([name.split('::')[-1], val])
     task.logger.info(f'token:{task.slugname}')
-    task.save_to_run_info({'inputs': len(ins)})
+    task.save_to_run_info({'inputs': len(ins), 'run': run_no})
     task.save_to_run_info('second')
     res = {'i': ins, 'p': ps, 't': task.slugname}
     # parameter objects that asked to be told about the chain (ChainObject): were they?
